@@ -60,6 +60,8 @@ done
 for d in "$VERIF"/seeded/S*; do
   [ -f "$d/patch.diff" ] || continue
   n="$(basename "$d")"
+  # SELFTEST_ONLY=<regex>: only the seeded changes whose directory name matches
+  if [ -n "${SELFTEST_ONLY:-}" ] && ! echo "$n" | grep -qE "$SELFTEST_ONLY"; then continue; fi
   case "$(sed -n 's/.*"class": "\([a-z-]*\)".*/\1/p' "$d/meta.json" | head -1)" in
     input-level) run_case "input-level: $n" "$d/patch.diff" hold hold ;;
     seam)        if grep -q '"audit_probe_expected": "either"' "$d/meta.json"; then
@@ -71,6 +73,9 @@ for d in "$VERIF"/seeded/S*; do
     seam-object) run_case "seam in a caller-held object (independent): $n" "$d/patch.diff" hold changed ;;
     # wrong only when two calls overlap in time: the call-granular probe must stay quiet
     seam-race)   run_case "seam, race (independent): $n" "$d/patch.diff" changed hold ;;
+    # a fault is needed to reach it, but the state lives in a local object and the wrong
+    # value is the same on every execution: nothing for the scan or the probe to see
+    seam-fault-deterministic) run_case "fault-reached, deterministic (independent): $n" "$d/patch.diff" hold hold ;;
     *)           echo "selftest error: $d/meta.json has no class"; exit 2 ;;
   esac
 done
